@@ -379,6 +379,19 @@ pub fn prop_total(bytes: &[u8]) -> String {
             return format!("FAIL {name}: {}", &d[..d.len().min(80)]);
         }
     }
+    // "an in-memory buffer" is also a plain `&[u8]` or a `VecDeque<u8>` handed to `decode` (std's strictest `BufRead`s: they
+    // panic when asked to consume more than they hold, where `Cursor` / `BufReader` forgive it): seed C01-n
+    {
+        use rosu_map::section::hit_objects::HitObjects;
+        let mut sl: &[u8] = bytes;
+        if let Err(e) = Beatmap::decode(&mut sl) {
+            return format!("FAIL Beatmap::decode(&[u8]): {}", kind_tag(e.kind()));
+        }
+        let mut dq: std::collections::VecDeque<u8> = bytes.iter().copied().collect();
+        if let Err(e) = HitObjects::decode(&mut dq) {
+            return format!("FAIL HitObjects::decode(VecDeque): {}", kind_tag(e.kind()));
+        }
+    }
     let mut m = rosu_map::from_bytes::<Beatmap>(bytes).unwrap();
     // the rest of the public surface of a decoded map must not panic either (accessors that compute curves, sample
     // names, break durations); the harness turns a panic into a FAIL of this request
